@@ -86,6 +86,11 @@ claimed = {
   text="Programs built only from the naming-hazard templates of the generator (two packages with the same name and identical declarations, nested closures in methods, closures in initialisers/init, generics instantiated with same-named local types from several packages, bound methods, dotted paths) are built by gc and llgo (O0, O2, O2+nogc) and must print identical tokens. Exploration only.",
   note="End-to-end only: a merged or mis-bound symbol shows as a wrong token or link failure; the naming functions are not checked in-process and mergeable definitions are not diffed; no linkname/export directives.",
   design="§3 C14"),
+ "C09": dict(
+  technique="property-based differential testing (rapid): generated C/Go function pairs across the C ABI boundary, each side checksumming what it received against harness-computed expectations",
+  text="rapid generates signatures of 1-10 parameters mixing all scalar kinds with by-value structs (1-40 bytes, nested, mixed int/float eightbytes, arrays) for Go-calls-C functions and C-calls-Go callbacks; generated C (compiled by clang) and Go (compiled by the llgo under test at O0 and O2) each fold every received scalar into an FNV checksum; the checksums, struct returns and callback results must equal the values the harness computes from the drawn argument values. Exploration only; host x86-64.",
+  note="x86-64 only (the host); the registers-exhausted aggregate class is a listed finding and is generated in dedicated units; strings/slices/variadics/closures with context are not generated.",
+  design="§3 C09"),
 }
 not_yet = "check not built yet in this session (see DESIGN.md §3 for the planned generated-input check)"
 
